@@ -120,7 +120,7 @@ func goEscapeRef(c int, quote byte) string {
 
 func checkC07(c *Ctx) {
 	r, t := c.R, c.T
-	r.Explanation = "Decides the structural clauses of literal denotation: (1) ESCAPES: unquoteChar specialised by `spec` for the prefix `\\`+c for every byte c (256) and both quote characters yields the value / hex-digit count and range check / octal form / error of that escape, compared with the Go rune-literal table (\\a \\b \\f \\n \\r \\t \\v \\\\ and the active quote; \\x 2 hex digits; \\u 4 and \\U 8 hex digits ≤ MaxRune; three octal digits ≤ 255; everything else an error) — 512 cells, exhaustive; in multiline (raw) mode every byte is kept; (2) LEX-SUPERSET: every escape letter the unquoter accepts is accepted by lexEscape (same specialisation on the lexer state function), so no valid spelling is rejected by the lexer, and every unquote error reaches addParseErrf; (3) PLUMBING (grammar action-flow): STRING and QUOTED_STRING are unquoted by unquoteString, MULTILINE_STRING by unquoteMultilineString, before their constructors; TRUE/FALSE build bool literals with the constants true/false; NIL and NULL build nil literals; NUMBER goes to newNumberLiteral; (4) NUMBERS: newNumberLiteral tries strconv.ParseInt(text, 0, 64) first and strconv.ParseFloat(text, 64) only when that fails, and records an error when both fail; (5) KEYWORDS: every key of the keyword table is lower-case and the lookup key is strings.ToLower(word). Sign folding is checked under C02 FOLD. Not decided: agreement of lexer and unquoter on every whole string (only the escape alphabet and the error plumbing), rounding of floats and integer range (delegated to strconv, trusted)."
+	r.Explanation = "Decides the structural clauses of literal denotation: (1) ESCAPES: unquoteChar specialised by `spec` for the prefix `\\`+c for every byte c (256) and both quote characters yields the value / hex-digit count and range check / octal form / error of that escape, compared with the Go rune-literal table (\\a \\b \\f \\n \\r \\t \\v \\\\ and the active quote; \\x 2 hex digits; \\u 4 and \\U 8 hex digits ≤ MaxRune; three octal digits ≤ 255; everything else an error) — 512 cells, exhaustive; in multiline (raw) mode every byte is kept; (2) LEX-SUPERSET: every escape letter the unquoter accepts is accepted by lexEscape (same specialisation on the lexer state function), so no valid spelling is rejected by the lexer, and every unquote error reaches addParseErrf; (3) PLUMBING (grammar action-flow): STRING and QUOTED_STRING are unquoted by unquoteString, MULTILINE_STRING by unquoteMultilineString, before their constructors; TRUE/FALSE build bool literals with the constants true/false; NIL and NULL build nil literals; NUMBER goes to newNumberLiteral; (4) NUMBERS: newNumberLiteral tries strconv.ParseInt(text, 0, 64) first and strconv.ParseFloat(text, 64) only when that fails, and records an error when both fail; (5) KEYWORDS: every key of the keyword table is lower-case and the lookup key is strings.ToLower(word). Sign folding is checked under C02 FOLD. Not decided: agreement of lexer and unquoter on every whole string (only the escape alphabet and the error plumbing), rounding of floats and integer range (delegated to strconv, trusted). Also QUOTE-OPEN (the runes after an opening quote are tested against that quote only), DELIMS (exactly the delimiters are stripped), ESCAPE-RANGE, and RAW-QUOTE: in Unquote the branch of an opening back-quote never reaches the escape decoder and returns a slice of its argument."
 	r.Trusted = []string{"strconv.ParseInt / ParseFloat", "unicode/utf8"}
 	r.Exhaustive = true
 	uq := t.Func(pParser, "unquoteChar")
@@ -149,7 +149,62 @@ func checkC07(c *Ctx) {
 	// multiline mode keeps bytes
 	{
 		cfg := &specCfg{Call: stdErrCall}
-		outs, _ := cfg.run(uq, []sval{symv("s"), constv(constant.MakeInt64(0)), constv(constant.MakeBool(true))})
+		// the decoder of the raw mode: what UnquoteMultiline calls per character (itself or through the loop helper it
+		// shares with Unquote), specialised with the constant arguments of that call
+		dec, args := uq, []sval{symv("s"), constv(constant.MakeInt64(0)), constv(constant.MakeBool(true))}
+		if um := t.Func(pParser, "UnquoteMultiline"); um != nil {
+			var find func(f *ssa.Function, bind map[*ssa.Parameter]sval, depth int) bool
+			find = func(f *ssa.Function, bind map[*ssa.Parameter]sval, depth int) bool {
+				found := false
+				allInstrs(f, func(in ssa.Instruction) {
+					call, ok := in.(*ssa.Call)
+					if !ok || found {
+						return
+					}
+					g := call.Call.StaticCallee()
+					if g == nil || pkgOf(g) != um.Pkg || len(g.Blocks) == 0 {
+						return
+					}
+					var as []sval
+					for _, a := range call.Call.Args {
+						switch x := a.(type) {
+						case *ssa.Const:
+							if x.Value != nil {
+								as = append(as, constv(x.Value))
+							} else {
+								as = append(as, sval{nil: true})
+							}
+						case *ssa.Parameter:
+							if v, ok := bind[x]; ok {
+								as = append(as, v)
+							} else {
+								as = append(as, symv("s"))
+							}
+						default:
+							as = append(as, symv("s"))
+						}
+					}
+					if g.Signature.Results().Len() == 4 {
+						dec, args, found = g, as, true
+						return
+					}
+					if depth < 1 {
+						b2 := map[*ssa.Parameter]sval{}
+						for i, p := range g.Params {
+							if i < len(as) && as[i].isConst() {
+								b2[p] = as[i]
+							}
+						}
+						if find(g, b2, depth+1) {
+							found = true
+						}
+					}
+				})
+				return found
+			}
+			find(um, nil, 0)
+		}
+		outs, _ := cfg.run(dec, args)
 		ok := len(outs) > 0
 		for _, o := range outs {
 			if len(o.Vals) != 4 || !o.Vals[3].nil {
